@@ -2,6 +2,7 @@ package main
 
 import (
 	"encoding/hex"
+	"fmt"
 	"math/rand"
 )
 
@@ -269,6 +270,38 @@ func rosterNeighbours(rng *rand.Rand, r []mem) [][]mem {
 		out = append(out, cloneRoster(r[:len(r)-1]))
 		out = append(out, cloneRoster(r[1:]))
 	}
+	// same multiset of keys, other ownership: a service key moves to a neighbouring
+	// member, two members exchange a service key, all service keys move one member on
+	for i := 0; i+1 < len(r); i++ {
+		if n := len(r[i].S); n >= 1 {
+			c := cloneRoster(r) // last service key of i becomes the first of i+1
+			c[i+1].S = append([]int{c[i].S[n-1]}, c[i+1].S...)
+			c[i].S = c[i].S[:n-1]
+			out = append(out, c)
+			c = cloneRoster(r) // ... becomes the last of i+1
+			c[i+1].S = append(c[i+1].S, c[i].S[n-1])
+			c[i].S = c[i].S[:n-1]
+			out = append(out, c)
+		}
+		if len(r[i+1].S) >= 1 {
+			c := cloneRoster(r) // first service key of i+1 becomes the last of i
+			c[i].S = append(c[i].S, c[i+1].S[0])
+			c[i+1].S = c[i+1].S[1:]
+			out = append(out, c)
+		}
+		if len(r[i].S) >= 1 && len(r[i+1].S) >= 1 {
+			c := cloneRoster(r)
+			c[i].S[0], c[i+1].S[0] = c[i+1].S[0], c[i].S[0]
+			out = append(out, c)
+		}
+	}
+	if len(r) >= 2 {
+		c := cloneRoster(r)
+		for i := range c {
+			c[i].S = append([]int{}, r[(i+len(r)-1)%len(r)].S...)
+		}
+		out = append(out, c)
+	}
 	for i, m := range r {
 		if len(m.S) >= 2 {
 			c := cloneRoster(r)
@@ -370,6 +403,68 @@ func tokenGroup(rng *rand.Rand) [][6]string {
 	return out
 }
 
+// tokens obtained the way real code obtains them: ID() is asked of a token, the token
+// is cloned / copied, ONE field of the copy is changed, ID() is asked of the copy --
+// next to a freshly built token with the same fields (equal objects: same id) and to
+// the token it was derived from (different objects: different ids)
+func derivedTokenGroup(rng *rand.Rand) ([][6]string, []deriv) {
+	var base [6]string
+	for i := range base {
+		base[i] = randUUID(rng)
+	}
+	toks := [][6]string{base}
+	ders := []deriv{{}}
+	add := func(t [6]string, d deriv) {
+		toks = append(toks, t)
+		ders = append(ders, d)
+	}
+	for f := 0; f < 6; f++ {
+		for _, how := range []string{"clone", "copy", "clone-first"} {
+			v := base
+			v[f] = randUUID(rng)
+			add(v, deriv{From: 0, How: how})
+			add(v, deriv{}) // the same token built from a literal
+		}
+	}
+	v := base
+	v[5] = randUUID(rng)
+	add(v, deriv{From: 0, How: "changenode"})
+	add(v, deriv{})
+	// an unmodified clone, a clone of a clone, a field changed and changed back
+	add(base, deriv{From: 0, How: "clone"})
+	w := base
+	w[4] = randUUID(rng)
+	add(w, deriv{From: 0, How: "clone"})
+	k := len(toks) - 1
+	x := w
+	x[1] = randUUID(rng)
+	add(x, deriv{From: k, How: "clone"})
+	add(x, deriv{})
+	add(base, deriv{From: k, How: "copy"})
+	return toks, ders
+}
+
+func rosterKey(r []mem) string {
+	s := ""
+	for _, m := range r {
+		s += fmt.Sprintf("%d%v|", m.K, m.S)
+	}
+	return s
+}
+
+func dedupRosters(rs [][]mem) [][]mem {
+	seen := map[string]bool{}
+	var out [][]mem
+	for _, r := range rs {
+		k := rosterKey(r)
+		if !seen[k] {
+			seen[k] = true
+			out = append(out, r)
+		}
+	}
+	return out
+}
+
 func nameCorpus(rng *rand.Rand, n int, binary bool) []string {
 	seen := map[string]bool{}
 	var out []string
@@ -466,6 +561,35 @@ func generate(rng *rand.Rand, tier string) []interface{} {
 		}
 		rs = append(rs, splits(rev)...)
 		add(input{Kind: "rosters", Label: "regroup-all", Rosters: rs})
+	}
+	{
+		// three servers, service keys handed out in every possible way: every order of the
+		// service keys, cut into three (possibly empty) consecutive blocks
+		nsvc := 3
+		if !quick {
+			nsvc = 4
+		}
+		servers := edKeys(20, 3)
+		var rs [][]mem
+		for _, p := range perms(edKeys(30, nsvc)) {
+			for a := 0; a <= nsvc; a++ {
+				for b := a; b <= nsvc; b++ {
+					rs = append(rs, []mem{
+						{K: servers[0], S: append([]int{}, p[:a]...)},
+						{K: servers[1], S: append([]int{}, p[a:b]...)},
+						{K: servers[2], S: append([]int{}, p[b:]...)}})
+				}
+			}
+		}
+		// and with fewer service keys
+		for k := 0; k < nsvc; k++ {
+			for m := 0; m < 3; m++ {
+				r := plainRoster(servers)
+				r[m].S = edKeys(30, k)
+				rs = append(rs, r)
+			}
+		}
+		add(input{Kind: "rosters", Label: "ownership", Rosters: dedupRosters(rs)})
 	}
 	nr := 8
 	if !quick {
@@ -658,6 +782,8 @@ func generate(rng *rand.Rand, tier string) []interface{} {
 	}
 	for g := 0; g < ng; g++ {
 		add(input{Kind: "tokens", Label: "fields", Tokens: tokenGroup(rng)})
+		toks, ders := derivedTokenGroup(rng)
+		add(input{Kind: "tokens", Label: "derived", Tokens: toks, Derive: ders})
 	}
 
 	// ---- names
